@@ -94,17 +94,19 @@ CHECKS["C14"] = dict(
 
 NW_NOTE = ("Trusted: TLC; the harness allocators (registry with poison, guard pages via mmap/mprotect in a child process) and the parent's attribution of a fatal fault by address; "
            "event order = logger mutex order (Call before the call, Ret after it). Free-running schedules are sampled by the Go scheduler, not enumerated (the instruction-wide windows of the skiplist, barrier and "
-           "snapshot handles are enumerated by the C13/C16/C17/C08 checks under the gate). NitroWriters.tla instances: 2-3 writers x 2-4 calls on one key, two epochs.")
+           "snapshot handles are enumerated by the C13/C16/C17/C08 checks under the gate). NitroWriters.tla instances: 2-3 writers x 2-4 calls on one key, two epochs. "
+           "NitroWriters.tla is also bound under the gate scheduler (vh nw): TLC-simulated behaviours and random schedules drive real writers from one nitro yield point to the next, the free worker is held at its hook, "
+           "every model action is one event and Trace_NitroWriters.tla compares every node's real fields, garbage lists and allocator verdicts after every step.")
 CHECKS["C03"] = dict(
-   technique="TLA+ model NitroWriters.tla (writer paths at atomic-step grain) exhausted by TLC; TLC searches a linearization of every recorded concurrent history incl. the next snapshot's content and Count (SetLin.tla)",
+   technique="TLA+ model NitroWriters.tla (writer paths at atomic-step grain) exhausted by TLC and replayed step by step on the real writers under a gate scheduler (Trace_NitroWriters.tla); TLC searches a linearization of every recorded concurrent history incl. the next snapshot's content and Count (SetLin.tla)",
    text="NitroWriters.tla splits Put/Delete2 into lookup-under-token, bornSn read, same-epoch mark / deadSn CAS, list append and session flush and TLC checks one winner per delete and at most one live version for every interleaving of 2-3 writers. Real writers (2-6 goroutines, shared keys, same- and cross-epoch deletes, with concurrent readers) run free between quiescent NewSnapshots; SetLin.tla makes TLC place a linearization point between each Call and Ret such that all results, the snapshot scan, Count(), ItemsCount, every concurrent reader's scan and the final physical chain are explained; no placement = violation.",
    design_ref="DESIGN.md 4.5, 6 (C03)", note=NW_NOTE)
 CHECKS["C04"] = dict(
    technique="TLA+ model NitroWriters.tla (NoUAF, NoDoubleFree, FreedImpliesUnlinked over writers + barrier + GC worker + free worker) exhausted by TLC; real workloads under a guard-page allocator (child process) and a registry allocator with poison; allocator events and attributed faults judged by TLC (MemAPI.tla)",
-   text="The model marks every step that dereferences a node and TLC checks that no such step touches a freed node, no node is freed twice and nothing linked is freed, for all interleavings of contending writers with the reclamation pipeline; Skiplist.tla's NoMarkedLinked and AccessBarrier.tla's C16 invariants (checked by C13/C16) supply the layers below. On the real code every block lives on its own guard-protected pages that become inaccessible on free, so any read or write after free faults immediately and is attributed by address; double and invalid frees are recorded by the allocator; the harness dereferences every item handed out by iterators/visitors; TLC validates the event stream.",
+   text="The model marks every step that dereferences a node and TLC checks that no such step touches a freed node, no node is freed twice and nothing linked is freed, for all interleavings of contending writers with the reclamation pipeline, and TLC-simulated behaviours of that model are replayed on the real writers / barrier / free worker under the gate (Trace_NitroWriters.tla: a session destructed while a writer that entered before its flush is inside, a node freed while held, allocator errors are verdicts); Skiplist.tla's NoMarkedLinked and AccessBarrier.tla's C16 invariants (checked by C13/C16) supply the layers below. On the real code every block lives on its own guard-protected pages that become inaccessible on free, so any read or write after free faults immediately and is attributed by address; double and invalid frees are recorded by the allocator; the harness dereferences every item handed out by iterators/visitors; TLC validates the event stream.",
    design_ref="DESIGN.md 4.5, 5.2, 6 (C04)", note=NW_NOTE)
 CHECKS["C07"] = dict(
-   technique="TLA+ model NitroWriters.tla (AllFreedOnceAtClose) exhausted by TLC; allocator events of real histories (contended writers, rejected Puts, pinned snapshots, backups, LoadFromDisk-populated instances) judged by TLC (MemAPI.tla)",
+   technique="TLA+ model NitroWriters.tla (AllFreedOnceAtClose) exhausted by TLC and replayed on the real writers under the gate (Trace_NitroWriters.tla); allocator events of real histories (contended writers, rejected Puts, pinned snapshots, backups, LoadFromDisk-populated instances) judged by TLC (MemAPI.tla)",
    text="TLC checks that after the snapshot is closed, the workers drained and Close ran, every node allocated in any interleaving has been freed exactly once. Real instances run with a registry allocator whose every malloc/free is an event; at Close TLC requires allocated = freed, no double free and no foreign pointer, for contended-writer scenarios and for store -> restore -> operate -> Close sequences (delta on/off).",
    design_ref="DESIGN.md 4.5, 6 (C07)", note=NW_NOTE)
 
